@@ -66,10 +66,11 @@ def jac_job(job):
     out = dict(violations=[], inconclusive=[], obligations=[], src='', jsrc='')
     tally = decide.Tally()
     solver = job.get('solver', 'euler')
+    skw = {} if solver == 'default' else dict(solver=solver)     # 'default': the solver keyword is omitted in both calls
     try:
-        c_run = tv.compile_template(build_python(spec), vectorize=False, step_size=float(DT), solver=solver)
-        c_jac = tv.compile_template(build_python(spec), vectorize=False, step_size=float(DT), solver=solver, kind='jac',
-                                    sparse=job.get('sparse', False), fname='jf')
+        c_run = tv.compile_template(build_python(spec), vectorize=False, step_size=float(DT), **skw)
+        c_jac = tv.compile_template(build_python(spec), vectorize=False, step_size=float(DT), kind='jac',
+                                    sparse=job.get('sparse', False), fname='jf', **skw)
     except tv.CompileError as e:
         out['compile_error'] = str(e)
         out['tally'] = tally.as_dict()
@@ -90,7 +91,7 @@ def jac_job(job):
         out['tally'] = tally.as_dict()
         return out
     syms = tvspec.Symbols(spec)
-    adaptive = solver != 'euler'
+    adaptive = solver not in ('euler', 'default')
     t = symx.real('t')
     y = symx.symarray('y', ny)
     H = [symx.UF(f"Hist{i}", 1) for i in range(ny)]
@@ -257,7 +258,7 @@ def run(tier='quick', seed=0, only=None, verbose=False):
         'emitted text of get_run_func (symx forward-mode AD)', 'emitted text of get_jacobian_func (symx)',
         'ComputeGraph.get_jacobian_func / _get_symbolic_rhs / _resolve_derivatives / _expr_to_jac_str (concrete)'],
         bounds=dict(states='<=5', delays='<=2 distinct', functions='tanh sin cos exp sigmoid arctan sinh cosh absv tan, '
-                    'cubic and rational terms, algebraic intermediates, edges', backends='default', sparse='on/off',
+                    'cubic and rational terms, algebraic intermediates, edges', backends='default', sparse='on/off', solver='euler, scipy, keyword omitted in both calls',
                     vectorize='False (scalar models, as the property states)'),
         stubs=['numpy library model; hist = uninterpreted functions; scipy.sparse.csr_matrix = tagging wrapper'],
         assumptions=['reals for floats', 'abs: argument != 0 at the evaluation point', 'auto-07p DFDU/DFDP: see C18',
@@ -269,8 +270,10 @@ def run(tier='quick', seed=0, only=None, verbose=False):
         jobs.append(dict(key=f"{k}|euler", spec=s, solver='euler'))
         if hash(k) % 3 == 0 or tier == 'thorough':
             jobs.append(dict(key=f"{k}|sparse", spec=s, solver='euler', sparse=True))
-    for k, s in dde:
+    for di, (k, s) in enumerate(dde):
         jobs.append(dict(key=f"{k}|scipy", spec=s, solver='scipy'))
+        if di % 2 == 0 or tier == 'thorough':
+            jobs.append(dict(key=f"{k}|default-solver", spec=s, solver='default'))
         if tier == 'thorough':
             jobs.append(dict(key=f"{k}|euler", spec=s, solver='euler'))
     if only:
